@@ -29,7 +29,13 @@ RULE = ("cases = corpus + EVERY history of length <=5 (thorough: <=6) creating a
         "for every kind; random sessions of 70..180 [thorough ..400] operations with ~40 % retractions), WIDE justifications (4..8, 12 "
         "and 16 [thorough 3..16] premises in ascending, descending, rotated, swapped, interleaved and shuffled handle order, every "
         "single premise retracted in turn on a fresh engine, plus dependents, prior unrelated retractions, two wide justifications, "
-        "narrow+wide, derived premises, duplicated premises, stacked wide joins). "
+        "narrow+wide, derived premises, duplicated premises, stacked wide joins) "
+        "+ the MAINTENANCE-CALL family (7 named shapes + N/4 random histories, 7 of 8 well-formed): the public call "
+        "working_memory_mut().clear_modification_tracking() (op `C`, 'after propagation' clearing of the pending modified/retracted "
+        "tracking sets) directly after 2 of 3 retractions and at random other places, followed by further operations incl. a second "
+        "retraction of facts that are gone and justifications naming them; the call inserts and retracts nothing, so its step must "
+        "repeat the previous step's observations (oracle clause `maintenance`, checked by the driver, which then removes the step: "
+        "model and Spec see the same history without it, so every later step is also compared with the run that never cleared). "
         "Each history is run on IncrementalEngine (real code) plus a stand-alone TruthMaintenanceSystem fed the same calls "
         "(to observe the return value of retract_with_cascade) and on the Lean model; after EVERY operation the result, "
         "working_memory().get(h) for every handle, is_logical/is_explicit/has_valid_justification and tms().stats() are diffed "
@@ -47,7 +53,9 @@ ASSUMPTIONS = [
     "domain (the property's quantifier): every premise is live when its justification is recorded, and a further justification "
     "(tms_mut().add_*_justification) is recorded only for a fact that is itself live; outside it the model still mirrors the code "
     "(checked) but the property clauses are not claimed (theorems support_invariant_needs_wf, rejustified_dead_handle)",
-    "working memory is changed only through the engine (working_memory_mut(), remove_justifications(), clear(), reset_with_deffacts() are not part of a history)",
+    "working memory is changed only through the engine (working_memory_mut().insert/retract/update, remove_justifications(), clear(), "
+    "reset_with_deffacts() are not part of a history); the one call made through working_memory_mut() is clear_modification_tracking(), "
+    "a maintenance call that by contract changes no fact: histories may contain it anywhere and it must be invisible",
     "fact handles are u64 modelled as Nat; fact type/data, agenda and rule propagation do not influence presence or support",
 ]
 
